@@ -245,7 +245,7 @@ func runShot(f []string) string {
 		arr := target.Log()[a0:]
 		var sends []string
 		for _, a := range arr {
-			ref := "-"
+			ref := "~"
 			if a.HasRef {
 				ref = vh.HexS(a.Ref)
 			}
